@@ -261,6 +261,9 @@ func (opts *ParseRealtimeOptions) timezoneOrUTC() *time.Location {
 }
 
 func ParseRealtime(content []byte, opts *ParseRealtimeOptions) (*Realtime, error) {
+	// Work on a copy of the options: the caller's value may be shared between concurrent calls.
+	localOpts := *opts
+	opts = &localOpts
 	if opts.Extension == nil {
 		opts.Extension = extensions.NoExtension()
 	}
